@@ -46,11 +46,7 @@ func builtinStringFromCharCode(call FunctionCall) Value {
 // thisStringObjecter returns the UTF-16 view of ToString(this). The methods of
 // String.prototype are generic: the receiver need not be a String object.
 func thisStringObjecter(call FunctionCall) stringObjecter {
-	if obj := call.This.object(); obj != nil && obj.class == classStringName {
-		if str := obj.stringValue(); str != nil {
-			return str
-		}
-	}
+	// ToString(this): a String object may have its own toString / valueOf
 	return newStringObject(call.This.string())
 }
 
